@@ -812,8 +812,12 @@ class DirectoryNode:
                 walker.add_node(child, childpath)
                 continue
             verifier = child.get_verify_cap()
-            # allow LIT files (for which verifier==None) to be processed
-            if (verifier is not None) and (verifier in found):
+            if verifier is None:
+                # LIT files and LIT directories have no verify cap: they
+                # are identified by their (read) cap, which is all there
+                # is to them
+                verifier = child.get_readonly_uri()
+            if verifier in found:
                 continue
             found.add(verifier)
             if IDirectoryNode.providedBy(child):
